@@ -104,6 +104,39 @@ PROPS = {
 for _p in PROPS.values():
     _p.setdefault("level", "proof")
 
+
+def config_readers():
+    """C18: the functions under contract that read a configuration option (listing, usage database, blur, request
+    logging) - computed from the ASTs on every run, so a function that starts to read one is pulled in"""
+    import ast
+    from contracts.census import package_functions
+    from pvc.contract import REGISTRY
+    out = []
+    for mod, qual, fd in package_functions():
+        if qual in REGISTRY and hasattr(REGISTRY[qual], "tags") and any(
+                isinstance(n, ast.Attribute) and n.attr in ("_usage_db", "_blur_usage", "_allow_list", "_log_requests")
+                and isinstance(n.ctx, ast.Load) for n in ast.walk(fd)):
+            out.append(qual)
+    return out
+
+
+PROPS["C18"]["functions_all_dynamic"] = config_readers
+# C10's last sentence (re-sent claim / release / open / close after a crash reach the same answers and state) is C14's
+# statement for the crash case: the clauses C14 rests on count for C10 too, and so do C14's compositions
+TAG_ALSO = {"C10": ["C14"]}
+PROPS["C10"]["lemmas"] = PROPS["C10"]["lemmas"] + [COMPOSE.c14]
+PROPS["C10"]["canaries"] = [COMPOSE.canaries]
+PROPS["C10"]["conditioned_on"] = ["F8", "F11"]
+PROPS["C10"]["not_covered"] = ["GH4/GH5 at the second close of the close composition are taken from the event level (C02)"]
+
+
+def functions_all(pid):
+    spec = PROPS[pid]
+    out = list(spec.get("functions_all", []))
+    if spec.get("functions_all_dynamic"):
+        out += [q for q in spec["functions_all_dynamic"]() if q not in out]
+    return out
+
 # ---------------------------------------------------------------------------
 # known findings
 # ---------------------------------------------------------------------------
